@@ -6,48 +6,61 @@
    keeps the scopes (name -> cell) visible where it was created.  The real compiler + VM are tied
    to this semantics by the differential check C06Check (harness/src/c06.rs).
 
-   The VM-side half of the property (to be proved once Bytecode.v / Compiler.v / Vm.v follow the
-   encoding of /repo `next`: CloseUpvalue carries the index of the local that goes out of scope,
-   resolve_upvalue searches innermost first).  Statement:
+   The VM-side half (last part of this file; proofs in Cao.VmUpvalueProofs / VmUpvalueStep / VmUpvalueSem, over the
+   VM model Cao.Vm, which follows /repo HEAD: CloseUpvalue carries the index of the local that goes out of
+   scope, register_upvalue indexes the stack relative to the frame and keeps the rest of the list):
 
-     Definition open_upvalues_sorted_unique (vm : Vm.state) : Prop :=
-       let locs := map (fun u => upvalue_location vm u) (open_upvalue_list vm) in
-       StronglySorted (fun a b => a > b) locs                 (* strictly descending by stack slot: at
-                                                                most one open upvalue per slot *)
-       /\ Forall (fun l => l < stack_height vm) locs           (* every open slot is a live slot *)
-       /\ forall u, In u (open_upvalue_list vm) <-> is_open vm u.  (* the list holds exactly the open
-                                                                      upvalue objects *)
-     Theorem open_upvalues_preserved :
-       forall vm vm', open_upvalues_sorted_unique vm -> Vm.step vm = Running vm' ->
-                      open_upvalues_sorted_unique vm'.
-     (register_upvalue inserts in order or returns the existing upvalue of the slot; CloseUpvalue k
-      closes exactly the open upvalues with location >= frame_base + k; Return closes those with
-      location >= frame_base; no other instruction touches the list, and none lowers the stack
-      below an open location.)
+     C06_vm_ok_meaning, C06_fresh_state_vm_ok,
+     C06_open_upvalues_preserved (one instruction: every opcode, every native of the menu, re-entry through
+       Vm::run_function included), C06_open_upvalues_preserved_run (a whole `run`)
+         - the open-upvalue list (a linked list through the heap, head st_open) is strictly descending by
+           stack slot, hence at most one open upvalue per slot; every node is an OPEN upvalue object; the list
+           holds every open upvalue object of the heap (so every open upvalue of every closure).
+         - DIFFERENCE from the statement that stood here before ("Forall (fun l => l < stack_height vm) locs"):
+           that bound is NOT an invariant of the VM for arbitrary bytecode.  Pop (and every other instruction
+           that lowers the stack) does not look at the list, so a slot can be popped while an open upvalue
+           still points at it: C06_open_slot_may_be_dead is a run that ends that way.  What the VM keeps is
+           "slot < capacity of the stack array" (an access through an open upvalue stays inside the array),
+           and CloseUpvalue k / Return re-establish "slot < frame offset + k" / "slot < frame offset"
+           (C06_vm_close_keeps_value, C06_vm_return_closes).  "slot < height" at every point of a COMPILED
+           program needs the compiler's discipline (a CloseUpvalue before the pops of a scope); it is not
+           proved here.
+     C06_vm_register_shares     RegisterUpvalue(index, local): an open upvalue of the slot is reused - two
+                                closures that capture the same live local hold the same upvalue address - ;
+                                otherwise one is allocated and inserted in order.
+     C06_vm_quiet_instructions  no other instruction (all but CallNative, Return, RegisterUpvalue, CloseUpvalue and
+                                CallFunction of a native value) touches the list or the state of an upvalue object;
+     C06_vm_second_capture_shares  so a second capture of a still-open local gets the first capture's object.
+     C06_vm_objects_stable, C06_vm_objects_stable_run, C06_vm_heap_mono_meaning
+                                across every instruction and every run: a closure object keeps its label and arity
+                                (its upvalue list only grows), a closed upvalue stays closed, an open one never moves.
+     C06_vm_closures_closed     every upvalue address stored in a closure object is an upvalue object (all
+                                instructions, natives, re-entry, runs from the fresh state).
+     C06_vm_read_write_open     ReadUpvalue / SetUpvalue through an open upvalue read / write the stack slot
+                                itself, the cell that ReadLocalVar / SetLocalVar of the enclosing function use.
+     C06_vm_close_keeps_value,  CloseUpvalue k / Return: exactly the open upvalues with slot >= offset + k
+     C06_vm_return_closes,      (>= offset) are closed, each keeping the value its slot holds at that moment;
+     C06_vm_closed_upvalue_is_private
+                                afterwards ReadUpvalue / SetUpvalue use the object's own cell, which no write
+                                to the value stack touches.
+     C06_vm_closure_body        Closure h arity creates an object that stores h; RegisterUpvalue keeps it;
+                                CallFunction on a closure value jumps to the label h of THAT object and runs
+                                with that object as the frame's closure.
+     Examples on the compile output of the three witness programs of findings/C06 (Cao.VmUpvalueWitness).
+
+   Still only STATED (not proved): the refinement between the two halves,
 
      Definition cell_rel (R : cell -> upvalue) (s : RefSem.state) (vm : Vm.state) : Prop :=
        forall c u, R c = u ->
-         (is_open vm u   -> nth_error (stack vm) (upvalue_location vm u) = Some (vrel (cell_value s c))
-                            (* while the declaring scope is alive the cell IS the stack slot of the
-                               local: the enclosing function reads / writes the slot, the closures
-                               go through the open upvalue *))
+         (is_open vm u   -> nth_error (stack vm) (upvalue_location vm u) = Some (vrel (cell_value s c)))
       /\ (is_closed vm u -> closed_value vm u = vrel (cell_value s c)).
-                            (* after the scope ended the cell is the upvalue object's own value *)
      Theorem closure_refinement :
        forall m B, well_scoped m = true -> Compiler.compile m = Ok B ->
-       forall n, exists R, (* after n steps of the VM that correspond to a prefix of the evaluation
-                              of the reference semantics *)
-         open_upvalues_sorted_unique (vm_n) /\ cell_rel R s_n vm_n
-         /\ (* a scope end (CloseUpvalue k) / Return closes exactly the upvalues of the cells of
-               the scopes that RefSem drops there, copying the current value: lemmas
-               [repeat_scope_exit], [foreach_scope_exit], [finish_call_store] below are the
-               reference side of this step *)
+       forall n, exists R, vm_ok vm_n /\ cell_rel R s_n vm_n /\
          (forall cl c, closure_of R cl designates c -> the i-th upvalue address of the VM closure object is R c).
-     With [capture_by_reference] (a closure record holds cells), [iteration_cells_distinct_*]
-     (a fresh cell per iteration <-> a fresh upvalue object per iteration, because the previous one
-     was closed at the scope end), [cell_outlives_scope] and [closure_body_identity] (the label
-     stored in the closure object is injective in (function, card index): C08/C10) this gives C06
-     for the implementation model. *)
+     (it needs a simulation between RefSem.eval and runs of compiled code, i.e. the compiler-correctness
+      statement of C01 extended to closures; the theorems below are its VM-side lemmas, the theorems above its
+      reference-side lemmas, and the differential check C06Check ties the real compiler + VM to RefSem.) *)
 From Coq Require Import List NArith ZArith Bool Arith String Ascii.
 Import ListNotations.
 From Cao Require Import CardAst RefSem RefScope RefSemProofs C06Proofs C06Wf C06Check.
@@ -321,3 +334,407 @@ Example C06_examples_well_scoped :
         CForEach None None (Some (s "f")) (CReadVar (s "fs")) (log1 (CDynamicCall (CReadVar (s "f")) []))]);
       ("leaf", fn [] [CUn UReturn (CScalarInt 5)])]) = true.
 Proof. vm_compute. reflexivity. Qed.
+
+(* ========================================================================================== *)
+(* The VM half: the open-upvalue list of the VM model                                         *)
+(* ========================================================================================== *)
+From Coq Require Import Sorted.
+From Cao Require Import Stacks Vm VmUpvalueProofs VmUpvalueStep VmUpvalueSem VmUpvalueFrame VmUpvalueWitness.
+
+(* [vm_ok s] (VmUpvalueProofs) spelled out.  [open_list s l]: following u_next from st_open visits exactly the
+   nodes l = [(address, slot); ...] and ends at null. *)
+Theorem C06_vm_ok_meaning : forall s : Vm.state, vm_ok s ->
+  exists l : list (N * nat),
+    open_list s l /\
+    StronglySorted (fun x y => y < x) (map snd l) /\           (* strictly descending slots *)
+    NoDup (map fst l) /\
+    (forall a loc, In (a, loc) l ->                            (* every node is an OPEN upvalue object of its slot *)
+       exists v nx, hget (Vm.st_heap s) a = Some (OUp (mkUp (Some loc) v nx))) /\
+    Forall (fun x => snd x < List.length (vdata (st_stack s))) l /\   (* inside the stack array *)
+    (forall a u loc, hget (Vm.st_heap s) a = Some (OUp u) -> u_loc u = Some loc -> In (a, loc) l) /\
+    (forall ca h ar ups ua u loc,                              (* in particular the open upvalues of every closure *)
+       hget (Vm.st_heap s) ca = Some (OClo h ar ups) -> In ua ups ->
+       hget (Vm.st_heap s) ua = Some (OUp u) -> u_loc u = Some loc -> In (ua, loc) l) /\
+    vcount (st_stack s) < List.length (vdata (st_stack s)) /\
+    Forall (fun f => N.to_nat (fr_off f) < List.length (vdata (st_stack s))) (st_calls s).
+Proof. exact vm_ok_meaning. Qed.
+Print Assumptions C06_vm_ok_meaning.
+
+Theorem C06_fresh_state_vm_ok : vm_ok fresh_state.
+Proof. exact fresh_state_vm_ok. Qed.
+Print Assumptions C06_fresh_state_vm_ok.
+
+(* one instruction - any opcode, any native of the menu, re-entry through run_function included - keeps vm_ok;
+   [sres_ok r]: the state of r is vm_ok unless r is an abort (panic / UB / crash / divergence of the model) *)
+Theorem C06_open_upvalues_preserved :
+  forall (F : fops) (bld : build) (P : program) (reenter : N -> Vm.state -> rres),
+    (forall ip s, vm_ok s -> rres_ok (reenter ip s)) ->
+    forall ip s, vm_ok s -> sres_ok (step F bld P reenter ip s).
+Proof. exact step_vm_ok. Qed.
+Print Assumptions C06_open_upvalues_preserved.
+
+Theorem C06_open_upvalues_preserved_next :
+  forall (F : fops) (bld : build) (P : program) (reenter : N -> Vm.state -> rres),
+    (forall ip s, vm_ok s -> rres_ok (reenter ip s)) ->
+    forall ip s ip' s', vm_ok s -> step F bld P reenter ip s = SNext ip' s' -> vm_ok s'.
+Proof.
+  intros F bld P re Hre ip s ip' s' Hs E. pose proof (step_vm_ok F bld P re Hre ip s Hs) as H.
+  rewrite E in H. exact H.
+Qed.
+Print Assumptions C06_open_upvalues_preserved_next.
+
+(* a whole run (nested runs of Vm::run_function included): whatever state it ends in, normally or with an error *)
+Theorem C06_open_upvalues_preserved_run :
+  forall F bld budget P s o s',
+    vm_ok s -> run F bld budget P s = (o, s') -> (forall a, o <> OAbort a) -> vm_ok s'.
+Proof. exact run_vm_ok. Qed.
+Print Assumptions C06_open_upvalues_preserved_run.
+
+(* "every open slot is below the stack height" is not an invariant: hand-written bytecode
+   ScalarNil; Closure; RegisterUpvalue 0 local; Pop; Exit  ends normally with an empty value stack and an open
+   upvalue (object 1) that still points at slot 0 *)
+Theorem C06_open_slot_may_be_dead : forall F bld,
+  let r := run F bld 100 dead_slot_program fresh_state in
+  fst r = OOk /\ vm_ok (snd r) /\ open_list (snd r) [(1%N, 0)] /\ scount (snd r) = 0 /\ ~ open_live (snd r).
+Proof. exact open_slot_may_be_dead. Qed.
+Print Assumptions C06_open_slot_may_be_dead.
+
+(* ------------------------------------------------------------------------------------------ *)
+(* (a') RegisterUpvalue index, is_local = true                                                *)
+(* ------------------------------------------------------------------------------------------ *)
+Theorem C06_vm_register_shares :
+  forall F bld P reenter ip0 s index is_local s1 ca ch car cups off l loc,
+    opcode_at P ip0 = 45%N ->
+    read_le (p_code P) (ip0 + 1) 1 = Some index -> read_le (p_code P) (ip0 + 1 + 1) 1 = Some is_local ->
+    is_local <> 0%N ->
+    spop s = (s1, VObj ca) -> hget (Vm.st_heap s1) ca = Some (OClo ch car cups) ->   (* the closure on top *)
+    top_offset s1 = Some off -> loc = off + N.to_nat index -> loc < scount s1 ->     (* the captured local *)
+    vm_ok s -> open_list s l ->
+    (* the slot has an open upvalue [a]: the closure gets that object; nothing else changes *)
+    (forall a, In (a, loc) l ->
+       step F bld P reenter ip0 s =
+       SNext (ip0 + 1 + 2) (set_heap s1 (hset (Vm.st_heap s1) ca (OClo ch car (cups ++ [a]))))) /\
+    (* it has none: a new open upvalue object is allocated and inserted in order *)
+    (~ In loc (slots l) ->
+       let ua := N.of_nat (List.length (Vm.st_heap s1)) in
+       exists s', step F bld P reenter ip0 s = SNext (ip0 + 1 + 2) s' /\ vm_ok s' /\
+         open_list s' (ins_desc ua loc l) /\
+         hget (Vm.st_heap s') ca = Some (OClo ch car (cups ++ [ua])) /\
+         (exists nx, hget (Vm.st_heap s') ua = Some (OUp (mkUp (Some loc) VNil nx))) /\
+         st_stack s' = st_stack s1 /\ st_calls s' = st_calls s1 /\ st_globals s' = st_globals s1 /\
+         (forall x, oview (hget (Vm.st_heap s1) x) = None -> x <> ua -> x <> ca ->
+                    hget (Vm.st_heap s') x = hget (Vm.st_heap s1) x) /\
+         heap_mono (Vm.st_heap s1) (Vm.st_heap s')).
+Proof. exact register_shares. Qed.
+Print Assumptions C06_vm_register_shares.
+
+(* no other instruction touches the list: every instruction except CallNative (4), Return (22), RegisterUpvalue (45),
+   CloseUpvalue (46) - and CallFunction (11) when the popped callee is a native function value - leaves the head of
+   the list and the (slot, next) view of every upvalue object unchanged ([same_upvalues s s']: st_open s' = st_open s
+   and every object is an open upvalue of slot k with successor n in s' iff it is in s); so the open list is the same
+   list, open upvalues stay open at their slot, closed ones stay closed, none is created *)
+Theorem C06_vm_quiet_instructions :
+  forall F bld P reenter ip0 s,
+    ~ In (nth (N.to_nat ip0) (p_code P) 255%N) [4; 22; 45; 46]%N ->
+    (nth (N.to_nat ip0) (p_code P) 255%N = 11%N -> not_native_callee s) ->
+    vm_ok s ->
+    match step F bld P reenter ip0 s with
+    | SNext _ s' | SExit s' | SErr _ _ s' =>
+        vm_ok s' /\ same_upvalues s s' /\ (forall l, open_list s l -> open_list s' l)
+    | SStop _ _ => True
+    end.
+Proof.
+  intros F bld P re ip0 s Hq H11 Hs. pose proof (step_quiet_same_upvalues F bld P re ip0 s Hq H11 Hs) as H.
+  destruct (step F bld P re ip0 s); try exact H; destruct H as (A & B & _); (split; [exact A|]); (split; [exact B|]);
+    intros l Hl; eapply same_upvalues_open_list; eauto.
+Qed.
+Print Assumptions C06_vm_quiet_instructions.
+
+(* and, SetUpvalue (43) excluded too, the upvalue objects are the very same objects, values included: the value of a
+   closed upvalue is changed by SetUpvalue through it (C06_vm_closed_upvalue_is_private) and by nothing else that is
+   not a call of a native or one of the three list instructions *)
+Theorem C06_vm_quiet_instructions_same_objects :
+  forall F bld P reenter ip0 s,
+    ~ In (nth (N.to_nat ip0) (p_code P) 255%N) [4; 22; 43; 45; 46]%N ->
+    (nth (N.to_nat ip0) (p_code P) 255%N = 11%N -> not_native_callee s) ->
+    vm_ok s ->
+    match step F bld P reenter ip0 s with
+    | SNext _ s' | SExit s' | SErr _ _ s' =>
+        vm_ok s' /\ forall a u, hget (Vm.st_heap s') a = Some (OUp u) <-> hget (Vm.st_heap s) a = Some (OUp u)
+    | SStop _ _ => True
+    end.
+Proof. exact step_quiet_same_objects. Qed.
+Print Assumptions C06_vm_quiet_instructions_same_objects.
+
+(* hence two closures that capture the same live local hold the same upvalue address: [ua] is the open upvalue of
+   slot [loc] in s' (for instance s' is the state after the RegisterUpvalue that created it, by
+   C06_vm_register_shares: ins_desc ua loc l contains (ua, loc)); t is reached from s' by instructions that leave
+   the upvalues alone (C06_vm_quiet_instructions; same_upvalues is transitive); a RegisterUpvalue in t for that slot
+   hands out [ua] again *)
+Theorem C06_vm_second_capture_shares :
+  forall F bld P reenter s' l' ua loc t ip0 index is_local t1 cb ch car cups off,
+    open_list s' l' -> In (ua, loc) l' ->
+    vm_ok t -> same_upvalues s' t ->
+    opcode_at P ip0 = 45%N ->
+    read_le (p_code P) (ip0 + 1) 1 = Some index -> read_le (p_code P) (ip0 + 1 + 1) 1 = Some is_local ->
+    is_local <> 0%N ->
+    spop t = (t1, VObj cb) -> hget (Vm.st_heap t1) cb = Some (OClo ch car cups) ->
+    top_offset t1 = Some off -> loc = off + N.to_nat index -> loc < scount t1 ->
+    step F bld P reenter ip0 t =
+    SNext (ip0 + 1 + 2) (set_heap t1 (hset (Vm.st_heap t1) cb (OClo ch car (cups ++ [ua])))).
+Proof. exact second_capture_shares. Qed.
+Print Assumptions C06_vm_second_capture_shares.
+
+(* ------------------------------------------------------------------------------------------ *)
+(* (b') an open upvalue is the stack slot                                                     *)
+(* ------------------------------------------------------------------------------------------ *)
+(* [upvalue_of s idx ua u]: upvalue idx of the closure of the running frame is the object ua = OUp u.
+   sraw_get / sraw_set: access to a cell of the stack array by its absolute index. *)
+Theorem C06_vm_read_write_open :
+  forall F bld P reenter,
+    (* ReadUpvalue idx through an open upvalue pushes the content of the slot *)
+    (forall ip0 s idx ua u loc,
+       opcode_at P ip0 = 44%N -> op_u32 P (ip0 + 1) = Some idx -> upvalue_of s idx ua u -> u_loc u = Some loc ->
+       step F bld P reenter ip0 s = push_next (ip0 + 1 + 4) s (sraw_get s loc)) /\
+    (* SetUpvalue idx through an open upvalue overwrites the slot and nothing else *)
+    (forall ip0 s s1 wv idx ua u loc,
+       opcode_at P ip0 = 43%N -> op_u32 P (ip0 + 1) = Some idx -> spop s = (s1, wv) -> upvalue_of s1 idx ua u ->
+       u_loc u = Some loc ->
+       step F bld P reenter ip0 s = SNext (ip0 + 1 + 4) (sraw_set s1 loc wv)) /\
+    (* the enclosing function's ReadLocalVar / SetLocalVar of a live local use the same cell *)
+    (forall ip0 s hd off,
+       opcode_at P ip0 = 20%N -> op_u32 P (ip0 + 1) = Some hd -> top_offset s = Some off ->
+       off + N.to_nat hd < scount s ->
+       step F bld P reenter ip0 s = push_next (ip0 + 1 + 4) s (sraw_get s (off + N.to_nat hd))) /\
+    (forall ip0 s s1 v hd off,
+       opcode_at P ip0 = 19%N -> op_u32 P (ip0 + 1) = Some hd -> top_offset s = Some off ->
+       spop_w_offset s off = (s1, v) -> off + N.to_nat hd < scount s1 ->
+       step F bld P reenter ip0 s = SNext (ip0 + 1 + 4) (sraw_set s1 (off + N.to_nat hd) v)) /\
+    (* and a write is seen by the next read of that cell, by whichever instruction *)
+    (forall s i v, i < List.length (vdata (st_stack s)) -> sraw_get (sraw_set s i v) i = v) /\
+    (forall s i j v, i <> j -> sraw_get (sraw_set s i v) j = sraw_get s j) /\
+    (forall s i v, Vm.st_heap (sraw_set s i v) = Vm.st_heap s /\ st_open (sraw_set s i v) = st_open s).
+Proof.
+  intros F bld P re. split.
+  { intros ip0 s idx ua u loc Hop Ei Hu Hl. rewrite (read_upvalue F bld P re ip0 s idx ua u Hop Ei Hu), Hl. reflexivity. }
+  split.
+  { intros ip0 s s1 wv idx ua u loc Hop Ei Ep Hu Hl.
+    rewrite (write_upvalue F bld P re ip0 s s1 wv idx ua u Hop Ei Ep Hu), Hl. reflexivity. }
+  split; [apply read_local|]. split; [apply write_local|].
+  split; [apply sraw_set_get|]. split; [apply sraw_set_get_other|]. intros; split; reflexivity.
+Qed.
+Print Assumptions C06_vm_read_write_open.
+
+(* ------------------------------------------------------------------------------------------ *)
+(* (c') closing                                                                               *)
+(* ------------------------------------------------------------------------------------------ *)
+(* kept_by top l = the nodes of l with slot < top.  same_but_heap_open: value stack (nothing is popped), frames,
+   globals, log and counters are unchanged, the heap has the same size. *)
+Theorem C06_vm_close_keeps_value :
+  forall F bld P reenter ip0 s idx off l,
+    opcode_at P ip0 = 46%N -> op_u32 P (ip0 + 1) = Some idx -> top_offset s = Some off ->
+    vm_ok s -> open_list s l ->
+    let top := off + N.to_nat idx in
+    exists s', step F bld P reenter ip0 s = SNext (ip0 + 1 + 4) s' /\ vm_ok s' /\
+      open_list s' (kept_by top l) /\                       (* exactly the nodes below [top] stay open ... *)
+      Forall (fun x => snd x < top) (kept_by top l) /\
+      same_but_heap_open s s' /\
+      (forall a loc, In (a, loc) l -> top <= loc ->         (* ... the others keep the value their slot has now *)
+         exists nx, hget (Vm.st_heap s') a = Some (OUp (mkUp None (sraw_get s loc) nx))) /\
+      (* the open upvalues below [top] and every other object are unchanged *)
+      (forall x, (forall loc, In (x, loc) l -> loc < top) -> hget (Vm.st_heap s') x = hget (Vm.st_heap s) x).
+Proof.
+  intros F bld P re ip0 s idx off l Hop Ei Eo Hs Hl top.
+  destruct (close_upvalue_spec F bld P re ip0 s idx off l Hop Ei Eo Hs Hl) as (s' & A & B & C & D & E & G).
+  exists s'. repeat (split; [assumption|]). split; [apply kept_by_below|]. repeat (split; [assumption|]). exact G.
+Qed.
+Print Assumptions C06_vm_close_keeps_value.
+
+(* Return: the frame is dropped, the upvalues of the frame's slots (slot >= its offset) are closed as above, then the
+   stack is cut at the offset and the return value pushed *)
+Theorem C06_vm_return_closes :
+  forall F bld P reenter ip0 s fr prev rest l,
+    opcode_at P ip0 = 22%N -> st_calls s = fr :: prev :: rest ->
+    vm_ok s -> open_list s l ->
+    let off := N.to_nat (fr_off fr) in
+    exists s2, close_upvalues_from off (set_calls s (prev :: rest)) = ClOk s2 /\
+      step F bld P reenter ip0 s =
+        push_next (fr_dst prev) (fst (sclear_until s2 off)) (snd (sclear_until s2 off)) /\
+      vm_ok s2 /\ open_list s2 (kept_by off l) /\ Forall (fun x => snd x < off) (kept_by off l) /\
+      st_stack s2 = st_stack s /\ st_calls s2 = prev :: rest /\
+      (forall a loc, In (a, loc) l -> off <= loc ->
+         exists nx, hget (Vm.st_heap s2) a = Some (OUp (mkUp None (sraw_get s loc) nx))) /\
+      (forall x, (forall loc, In (x, loc) l -> loc < off) -> hget (Vm.st_heap s2) x = hget (Vm.st_heap s) x).
+Proof.
+  intros F bld P re ip0 s fr prev rest l Hop Ec Hs Hl off.
+  destruct (return_closes F bld P re ip0 s fr prev rest l Hop Ec Hs Hl) as (s2 & A & B & C & D & E & G & H & I).
+  exists s2. repeat (split; [assumption|]). split; [apply kept_by_below|]. repeat (split; [assumption|]). exact I.
+Qed.
+Print Assumptions C06_vm_return_closes.
+
+(* a closed upvalue is a private cell of the heap: reads return its own value, writes replace it; the value stack is
+   not involved, and no write to the value stack (sraw_set, i.e. SetLocalVar / SetUpvalue through an open upvalue /
+   a push into the reused slot) changes the heap *)
+Theorem C06_vm_closed_upvalue_is_private :
+  forall F bld P reenter,
+    (forall ip0 s idx ua u,
+       opcode_at P ip0 = 44%N -> op_u32 P (ip0 + 1) = Some idx -> upvalue_of s idx ua u -> u_loc u = None ->
+       step F bld P reenter ip0 s = push_next (ip0 + 1 + 4) s (u_val u)) /\
+    (forall ip0 s s1 wv idx ua u,
+       opcode_at P ip0 = 43%N -> op_u32 P (ip0 + 1) = Some idx -> spop s = (s1, wv) -> upvalue_of s1 idx ua u ->
+       u_loc u = None ->
+       step F bld P reenter ip0 s =
+       SNext (ip0 + 1 + 4) (set_heap s1 (hset (Vm.st_heap s1) ua (OUp (mkUp None wv (u_next u)))))) /\
+    (forall s i v, Vm.st_heap (sraw_set s i v) = Vm.st_heap s) /\
+    (forall s v s', spush s v = Some s' -> Vm.st_heap s' = Vm.st_heap s).
+Proof.
+  intros F bld P re. split.
+  { intros ip0 s idx ua u Hop Ei Hu Hl. rewrite (read_upvalue F bld P re ip0 s idx ua u Hop Ei Hu), Hl. reflexivity. }
+  split.
+  { intros ip0 s s1 wv idx ua u Hop Ei Ep Hu Hl.
+    rewrite (write_upvalue F bld P re ip0 s s1 wv idx ua u Hop Ei Ep Hu), Hl. reflexivity. }
+  split; [reflexivity|]. apply spush_heap.
+Qed.
+Print Assumptions C06_vm_closed_upvalue_is_private.
+
+(* ------------------------------------------------------------------------------------------ *)
+(* (d') the body of a closure value                                                           *)
+(* ------------------------------------------------------------------------------------------ *)
+Theorem C06_vm_closure_body :
+  forall F bld P reenter,
+    (* Closure h arity: a new object that stores the label handle h (and no upvalues yet) *)
+    (forall ip0 s h ar,
+       opcode_at P ip0 = 42%N -> op_u32 P (ip0 + 1) = Some h -> op_u32 P (ip0 + 1 + 4) = Some ar ->
+       step F bld P reenter ip0 s =
+       push_next (ip0 + 1 + 8) (set_heap s (Vm.st_heap s ++ [OClo h ar []]))
+                 (VObj (N.of_nat (List.length (Vm.st_heap s))))) /\
+    (* CallFunction (the DynamicCall card) on a closure value: jump to the position of the label stored in the
+       object; the new frame runs with this object as its closure (its upvalues are the ones Read/SetUpvalue use) *)
+    (forall ip0 s s1 a h ar ups top rest pos,
+       opcode_at P ip0 = 11%N -> spop s = (s1, VObj a) -> hget (Vm.st_heap s1) a = Some (OClo h ar ups) ->
+       st_calls s1 = top :: rest -> (ar <= N.of_nat (scount s1))%N ->
+       S (List.length (st_calls s1)) < call_stack_size ->
+       assoc h (p_labels P) = Some pos ->
+       step F bld P reenter ip0 s =
+       SNext pos (set_calls s1 (mkFrame ip0 (ip0 + 1) (N.of_nat (scount s1) - ar) (Some a)
+                                :: mkFrame (fr_src top) (ip0 + 1) (fr_off top) (fr_clo top) :: rest))).
+Proof. intros F bld P re. split; [apply closure_creation|apply call_closure_body]. Qed.
+Print Assumptions C06_vm_closure_body.
+
+(* ------------------------------------------------------------------------------------------ *)
+(* identity and lifetime of the objects, for EVERY instruction and for whole runs             *)
+(* ------------------------------------------------------------------------------------------ *)
+(* [heap_mono h h']: every object of h is in h' at the same address, as a later state of itself *)
+Theorem C06_vm_heap_mono_meaning : forall h h', heap_mono h h' ->
+  (* a closure keeps the label of its body and its arity for ever; its upvalue list only grows (RegisterUpvalue) *)
+  (forall a lbl ar ups, hget h a = Some (OClo lbl ar ups) ->
+     exists more, hget h' a = Some (OClo lbl ar (ups ++ more))) /\
+  (* a closed upvalue stays a closed upvalue *)
+  (forall a u, hget h a = Some (OUp u) -> u_loc u = None ->
+     exists u', hget h' a = Some (OUp u') /\ u_loc u' = None) /\
+  (* an upvalue that is open later was open at the same slot before: it never moves, it is never re-opened *)
+  (forall a u u' l, hget h a = Some (OUp u) -> hget h' a = Some (OUp u') -> u_loc u' = Some l -> u_loc u = Some l) /\
+  (forall a lbl ar, hget h a = Some (OFun lbl ar) -> hget h' a = Some (OFun lbl ar)).
+Proof. exact heap_mono_meaning. Qed.
+Print Assumptions C06_vm_heap_mono_meaning.
+
+(* [stable_from s0 x] = vm_ok x /\ heap_mono (heap of s0) (heap of x); one instruction - any opcode, any native,
+   re-entry included - keeps it, for every start state s0 *)
+Theorem C06_vm_objects_stable :
+  forall (F : fops) (bld : build) (P : program) (s0 : Vm.state) (reenter : N -> Vm.state -> rres),
+    (forall ip s, stable_from s0 s -> rres_inv (stable_from s0) (reenter ip s)) ->
+    forall ip s, stable_from s0 s -> sres_inv (stable_from s0) (step F bld P reenter ip s).
+Proof. exact step_stable. Qed.
+Print Assumptions C06_vm_objects_stable.
+
+Theorem C06_vm_objects_stable_run :
+  forall F bld budget P s o s',
+    vm_ok s -> run F bld budget P s = (o, s') -> (forall a, o <> OAbort a) ->
+    vm_ok s' /\ heap_mono (Vm.st_heap s) (Vm.st_heap s').
+Proof. exact run_stable. Qed.
+Print Assumptions C06_vm_objects_stable_run.
+
+(* heap closedness: every upvalue address stored in a closure object is an upvalue object
+   ([closed_ok x] = vm_ok x /\ clo_ok (heap of x)) - for every instruction, every native, re-entry, and whole runs
+   from the fresh state; so ReadUpvalue / SetUpvalue with an index inside the closure's list never meet a dangling
+   or wrongly typed address (the [upvalue_of] hypothesis of the access theorems above reduces to: the running
+   frame has a closure object and the index is in range) *)
+Theorem C06_vm_closures_closed :
+  closed_ok fresh_state /\
+  (forall (F : fops) (bld : build) (P : program) (reenter : N -> Vm.state -> rres),
+     (forall ip s, closed_ok s -> rres_inv closed_ok (reenter ip s)) ->
+     forall ip s, closed_ok s -> sres_inv closed_ok (step F bld P reenter ip s)) /\
+  (forall F bld budget P s o s',
+     closed_ok s -> run F bld budget P s = (o, s') -> (forall a, o <> OAbort a) -> closed_ok s') /\
+  (forall s, closed_ok s ->
+     forall ca lbl ar ups idx ua, hget (Vm.st_heap s) ca = Some (OClo lbl ar ups) -> nth_error ups idx = Some ua ->
+       exists u, hget (Vm.st_heap s) ua = Some (OUp u)).
+Proof.
+  split; [exact fresh_state_closed|]. split; [exact step_closed|]. split; [exact run_closed|].
+  intros s (_ & Hc) ca lbl ar ups idx ua Hca Hn. eapply Hc; [exact Hca|eapply nth_error_In; exact Hn].
+Qed.
+Print Assumptions C06_vm_closures_closed.
+
+(* ------------------------------------------------------------------------------------------ *)
+(* examples: the crate's compile output for the witnesses of findings/C06, run on the VM model *)
+(* ------------------------------------------------------------------------------------------ *)
+(* the programs use integers only: a float instance that is never consulted *)
+Definition nofloat : fops :=
+  mkFops (fun _ _ => 0%N) (fun _ _ => 0%N) (fun _ _ => 0%N) (fun _ _ => 0%N) (fun _ _ => None)
+         (fun _ => 0%N) (fun _ => 0%Z).
+(* a run with budget n ends in ETimeout after n - 1 instructions: the states below are states of the one run *)
+Definition vm_run (P : program) (budget : nat) : outcome * Vm.state := run nofloat Debug budget P fresh_state.
+
+(* the model logs what the real VM logged (VmUpvalueWitness: s*_program_log are the observed logs) *)
+Example C06_ex_vm_witnesses_log_as_the_real_vm :
+  (fst (vm_run s1_program 2000) = OOk /\ st_log (snd (vm_run s1_program 2000)) = s1_program_log) /\
+  (fst (vm_run s2_program 2000) = OOk /\ st_log (snd (vm_run s2_program 2000)) = s2_program_log) /\
+  (fst (vm_run s3_program 2000) = OOk /\ st_log (snd (vm_run s3_program 2000)) = s3_program_log).
+Proof. vm_compute. repeat split; reflexivity. Qed.
+
+(* S-1  mk(p){ tf := {}; repeat 2 as i { leaf(); append(fn(){ p := p*10 + i; return p }, tf) }; ... }
+   first iteration, the closure (object 3) is built: its upvalues are object 4 -> slot 0 (p = 6) and
+   object 5 -> slot 4 (i = 0), the list is descending; slot 5 above the captured i holds the value leaf() left *)
+Example C06_ex_vm_S1_first_iteration :
+  let st := snd (vm_run s1_program 27) in
+  open_list st [(5%N, 4); (4%N, 0)] /\ closures_of (Vm.st_heap st) = [(3%N, [4%N; 5%N])] /\
+  sraw_get st 0 = VInt 6 /\ sraw_get st 4 = VInt 0 /\ sraw_get st 5 = VInt 5.
+Proof. split; [apply chain_of_sound with (fuel := 5)|]; vm_compute; repeat split; reflexivity. Qed.
+
+(* second iteration: the new closure (object 7) SHARES object 4 for p - RegisterUpvalue found the open upvalue
+   of slot 0 - and gets a NEW object 8 for this iteration's i in the same slot 4: the upvalue of the first
+   iteration (object 5) was closed by CloseUpvalue at the end of the body and keeps i = 0 *)
+Example C06_ex_vm_S1_second_iteration :
+  let st := snd (vm_run s1_program 51) in
+  open_list st [(8%N, 4); (4%N, 0)] /\
+  closures_of (Vm.st_heap st) = [(3%N, [4%N; 5%N]); (7%N, [4%N; 8%N])] /\
+  hget (Vm.st_heap st) 5 = Some (OUp (mkUp None (VInt 0) (Some 4%N))) /\
+  sraw_get st 0 = VInt 6 /\ sraw_get st 4 = VInt 1.
+Proof. split; [apply chain_of_sound with (fuel := 5)|]; vm_compute; repeat split; reflexivity. Qed.
+
+(* the end of the run: mk has returned, nothing is open; the three closures (two iterations + the returned getter,
+   object 13) still share object 4, now closed, with the last value of p (6 -> 60 -> 601), and the two iterations
+   keep their own i = 0 and i = 1 *)
+Example C06_ex_vm_S1_after_the_frame :
+  let st := snd (vm_run s1_program 2000) in
+  st_open st = None /\
+  closures_of (Vm.st_heap st) = [(3%N, [4%N; 5%N]); (7%N, [4%N; 8%N]); (13%N, [4%N])] /\
+  upvalues_of (Vm.st_heap st) =
+    [(4%N, mkUp None (VInt 601) None); (5%N, mkUp None (VInt 0) (Some 4%N)); (8%N, mkUp None (VInt 1) (Some 4%N))].
+Proof. vm_compute. repeat split; reflexivity. Qed.
+
+(* S-3  show(p, q){ foreach (v = p) in tb { f := fn(){ log1(p); return q }; ... } }: the closure captures the loop
+   variable p (slot 9) first and the parameter q (slot 2) second: the second upvalue is linked BEHIND the first *)
+Example C06_ex_vm_S3_inserted_in_order :
+  open_list (snd (vm_run s3_program 25)) [(3%N, 9); (4%N, 2)].
+Proof. apply chain_of_sound with (fuel := 5). vm_compute. reflexivity. Qed.
+
+(* S-2  foreach (k) in tb { foreach (v = k) in ta { log1(std.map(fn(){ return k }, ta)) } }: while std.map runs the
+   closure (object 3) its one upvalue (object 4) is open at slot 13, the VALUE variable k = 2 of the inner loop
+   (the outer loop's variables are in slots 2-8); at the end of the run it is closed
+   with that value *)
+Example C06_ex_vm_S2_captures_the_inner_variable :
+  let st := snd (vm_run s2_program 40) in
+  open_list st [(4%N, 13)] /\ closures_of (Vm.st_heap st) = [(3%N, [4%N])] /\ sraw_get st 13 = VInt 2 /\
+  upvalues_of (Vm.st_heap (snd (vm_run s2_program 2000))) = [(4%N, mkUp None (VInt 2) None)].
+Proof. split; [apply chain_of_sound with (fuel := 5)|]; vm_compute; repeat split; reflexivity. Qed.
